@@ -8,7 +8,7 @@ import asyncio
 from vt import explore
 from vt.env.iprig import IpRig, std_handler
 
-BEHAVIOURS = ["ok", "close-m1", "http-400", "wrong-id", "bad-sig", "auth-error", "garbage", "m4-auth-error", "close-m3", "busy-error", "http-470", "ok-bad-subscribe-reply"]
+BEHAVIOURS = ["ok", "close-m1", "http-400", "wrong-id", "bad-sig", "auth-error", "garbage", "m4-auth-error", "close-m3", "busy-error", "http-470", "ok-bad-subscribe-reply", "ok+slow-close"]
 
 
 def mk_description(hosts, port=51826, c=1, s=1, acc_id="aa:bb:cc:dd:ee:ff"):
@@ -37,7 +37,7 @@ class ReconnH(explore.Harness):
 
         self.rig.acc.handler = std_handler({("PUT", "/characteristics"): _bad_sub})
         self.alphabet = p.get("behaviours", BEHAVIOURS)
-        self.triggers = p.get("triggers", ["zc-same", "zc-changed", "ensure", "ensure-t3", "cancel-ensure", "close", "shutdown", "drop", "drop-old"])
+        self.triggers = p.get("triggers", ["zc-same", "zc-changed", "ensure", "ensure-t3", "cancel-ensure", "close", "shutdown", "drop", "drop-old", "late-lost"])
         self.max_attempts = p.get("rounds", 16)
         self.max_time = p.get("max_time", 400.0)
         self.deviations = 0
@@ -70,9 +70,9 @@ class ReconnH(explore.Harness):
         # prelude: start the exploration from a non-initial state (labels, not counted as deviations)
         for label in p.get("prelude", []):
             m = self.menu()
-            if label not in m:
+            if label not in m and not (label.startswith("ok|") and self._pending_att()):
                 raise RuntimeError(f"prelude step {label!r} not enabled: {m}")
-            self.take(m.index(label))
+            self.take_label(label, deviation=False)
         self.deviations = 0
         self.max_attempts += len(self.net.attempts)
 
@@ -92,6 +92,9 @@ class ReconnH(explore.Harness):
 
     def _wire_fault(self, conn, beh):
         sess = conn.session
+        if beh.endswith("+slow-close"):
+            conn.slow_close = True  # when the controller closes this connection, connection_lost arrives late (explorer decides when)
+            beh = beh[: -len("+slow-close")]
         if beh in ("wrong-id", "bad-sig", "auth-error", "garbage", "m4-auth-error", "busy-error", "http-400", "http-470"):
             sess.fault = beh
         elif beh == "ok-bad-subscribe-reply":
@@ -141,6 +144,10 @@ class ReconnH(explore.Harness):
                 for c in self.net.conns:
                     if c is not cur and c.peer_open and c.transport is not None:
                         m.append(f"drop-old|{c.cid}")
+            elif t == "late-lost":
+                for c in self.net.conns:
+                    if c.transport is not None and getattr(c.transport, "_lost_pending", False):
+                        m.append(f"late-lost|{c.cid}")
             elif t == "cancel-ensure":
                 if any(not c["task"].done() for c in self.callers):
                     m.append("cancel-ensure")
@@ -170,8 +177,10 @@ class ReconnH(explore.Harness):
 
     def take(self, i):
         m = self.menu()
-        label = m[i]
-        if i != 0:
+        self.take_label(m[i], deviation=i != 0)
+
+    def take_label(self, label, deviation=True):
+        if deviation:
             self.deviations += 1
         parts = label.split("|")
         k = parts[0]
@@ -237,6 +246,15 @@ class ReconnH(explore.Harness):
         elif k == "drop":
             self.env_marks.append((now, "drop"))
             self._current_conn().peer_close()
+        elif k == "late-lost":
+            c = self.net.conns[int(parts[1])]
+            self.env_marks.append((now, "late-lost"))
+            before = (bool(self.pairing.is_connected), self.conn.transport)
+            c.transport.complete_close()
+            self.loop.run_until_idle()
+            after = (bool(self.pairing.is_connected), self.conn.transport)
+            if before[0] != after[0] or before[1] is not after[1]:
+                self.viol.append(("c11:loss-of-abandoned-connection-disturbs-current", {"cid": c.cid, "before_connected": before[0], "after_connected": after[0], "late": True, "t": now}))
         elif k == "drop-old":
             c = self.net.conns[int(parts[1])]
             self.env_marks.append((now, "drop-old"))
